@@ -5,10 +5,11 @@
    the cache under its hash (or, when two cleaned targets have the same hash, a file with that same hash
    is); a build restores a target whose remembered content is in the cache by renaming the cache file into
    place (so content and permission bits come back together) and runs the command only on a cache miss.
-   NOT proved as one statement: "if the targets were up to date before the clean then the following build
-   succeeds without running any command"; it is checked on every generated scenario on the in-memory file
-   system AND with the real binary and shell commands on the real file system. *)
-From Ruler Require Import Bytes AList RuleSyntax TopoSort World Cmdlang Work Build Ops BuildSpec BuildFacts C02Extra.
+   The end-to-end statement is C10_clean_then_build_restores below (added in round 2; proofs in
+   Proofs/C10{Facts,Summary,Clean,Restore,Main,Examples}.v): it is also checked on every generated scenario on the
+   in-memory file system AND with the real binary and shell commands on the real file system. *)
+From Ruler Require Import Bytes AList RuleSyntax TopoSort World Cmdlang Work Build Ops Inv BuildSpec Ideal BuildFacts C02Extra InvFacts
+     C01Facts C10Main C10Examples.
 
 Theorem C10_clean_removes_every_target :
   forall (T : Type) (teqb : T -> T -> bool) (hc : bytes -> T) (w : world T) rp goal w1 t pack,
@@ -38,4 +39,45 @@ Theorem C10_restore_moves_the_file :
     exists c f, cache_of w = Some c /\ alookup teqb c t = Some f /\ fget w' p = Some f.
 Proof. exact restore_moves_file. Qed.
 
+(* ------------------------------------------------------------------------------------------------------
+   THE PROPERTY END TO END. From any state satisfying the disk invariant (every state reached by a history,
+   C07/C01): if a build (whole or goal-restricted) of a plan with deterministic, confined commands succeeds —
+   so its targets are up to date — and the contents of the plan's targets are pairwise different, then a clean
+   of the same scope succeeds, leaves none of the targets in the workspace and each one's very file in the
+   cache under the hash of its bytes; the following build succeeds, RUNS NO COMMAND, puts back at every target
+   the very file that was there (bytes, modification time and executable bit), changes no other file, and reports
+   every target as Recovered. (`~ In rp ...`: the rules file is not itself a target. Sound histories are not assumed.) *)
+Local Notation build_sym := (build sym_eqb SContent SList SRule).
+Local Notation clean_sym := (clean sym_eqb SContent).
+
+Theorem C10_clean_then_build_restores : forall (w : world sym) rp goal w1 tbl pack,
+  disk_inv sym_eqb SContent w -> init_dir sym w = Ok (w1, tbl) -> get_nodes sym w1 rp goal = Ok pack ->
+  Forall det_node (p_nodes pack) -> ~ In rp (plan_targets pack) ->
+  o_verdict (build_sym w rp goal) = VOk ->
+  let wa := tick (o_world (build_sym w rp goal)) in
+  NoDup (map (fun t => content_at wa t) (plan_targets pack)) ->
+  let oc := clean_sym wa rp goal in
+  let wb := tick (o_world oc) in
+  let o3 := build_sym wb rp goal in
+  o_verdict oc = VOk /\
+  (forall t, In t (plan_targets pack) -> fget (o_world oc) t = None) /\
+  (forall t f, In t (plan_targets pack) -> fget wa t = Some f ->
+       exists c, cache_of (o_world oc) = Some c /\ alookup sym_eqb c (SContent (f_content f)) = Some f) /\
+  o_verdict o3 = VOk /\ o_commands o3 = [] /\
+  (forall t, In t (plan_targets pack) -> fget (o_world o3) t = fget wa t) /\
+  (forall p, ~ In p (plan_targets pack) -> fget (o_world o3) p = fget wa p) /\
+  Forall (fun s => fst s = BRecovered) (o_status o3).
+Proof. exact clean_then_build_restores_sym. Qed.
+
+(* "as long as their contents are pairwise different" is needed: two rules copying one source to two targets
+   share one cache entry, and the second of them re-runs its command (witness by vm_compute) *)
+Theorem C10_without_distinct_contents_refuted :
+  ~ (forall (w : world sym) rp goal w1 tbl pack,
+       disk_inv sym_eqb SContent w -> init_dir sym w = Ok (w1, tbl) -> get_nodes sym w1 rp goal = Ok pack ->
+       Forall det_node (p_nodes pack) -> ~ In rp (plan_targets pack) ->
+       o_verdict (build_sym w rp goal) = VOk ->
+       o_commands (build_sym (tick (o_world (clean_sym (tick (o_world (build_sym w rp goal))) rp goal))) rp goal) = []).
+Proof. exact clean_then_build_restores_without_distinct_refuted. Qed.
+
 Check C10_clean_removes_every_target.
+Check C10_clean_then_build_restores.
